@@ -90,7 +90,7 @@ def make_config(fd, rng, tier, model=None, grid_kind=None, solvable=False, n_ext
     span = float(items[-1] - items[0]) + float(dtv.mean())
     pnames = S.SURVIVAL[model][0]
     shape = tuple(dims.shape)
-    cfg = dict(items=items, gclass=gclass, tl=tl, dims=dims, extra=extra_letters, model=model, shape=shape, U=U, tdim=tdim,
+    cfg = dict(items=items, gclass=gclass, tl=tl, dims=dims, extra=extra_letters, model=model, shape=shape, U=U, tdim=tdim, layout=["C", "C", "F", "time-last"][(len(items) + len(model)) % 4],
                inflow_at=str(rng.choice(["start", "middle", "end"])), n_pts=int(rng.choice([1, 1, 1, 2, 3, 4, 5, 6, 7, 8, 9, 10])) if len(items) <= 60 else int(rng.choice([1, 2])))
     # ground-truth parameter values per (cohort, labels)
     lo = max(0.6 * float(dtv.min()), 0.3) if solvable else 0.3 * float(dtv.min())
@@ -243,16 +243,22 @@ def make_stock(fd, cfg, cls_name, solver=None, lm=None, inflow=None, stock=None)
     if cls_name == "StockDrivenDSM":
         kw["solver"] = solver or "manual"
     if inflow is not None:
-        kw["inflow"] = fd.StockArray(dims=dims, values=_as_given(inflow))
+        kw["inflow"] = fd.StockArray(dims=dims, values=_as_given(inflow, cfg.get("layout")))
     if stock is not None:
-        kw["stock"] = fd.StockArray(dims=dims, values=_as_given(stock))
+        kw["stock"] = fd.StockArray(dims=dims, values=_as_given(stock, cfg.get("layout")))
     return cls(**kw)
 
 
-def _as_given(v):
-    """driver values keep an integer dtype when the driver drew whole numbers on purpose"""
+def _as_given(v, layout=None):
+    """driver values keep an integer dtype when the driver drew whole numbers on purpose; layout: how the user's data lie in memory
+    (C order / Fortran order / stored with time LAST and handed over as a transposed view, as data read as (product, region, time))"""
     v = np.asarray(v)
-    return np.array(v, dtype=v.dtype if v.dtype.kind in "iu" else float)
+    a = np.array(v, dtype=v.dtype if v.dtype.kind in "iu" else float, order="C")
+    if a.ndim >= 2 and layout == "F":
+        return np.asfortranarray(a)
+    if a.ndim >= 2 and layout == "time-last":
+        return np.transpose(np.ascontiguousarray(np.transpose(a, tuple(range(a.ndim - 1, -1, -1)))), tuple(range(a.ndim - 1, -1, -1)))
+    return a
 
 
 def allclose_scaled(a, b, tol, scale=None):
@@ -373,10 +379,20 @@ def c16_case(rec, hub, rng, tier, which):
     base = f"{cls_name}/{solver}|{cfg['model']}|{cfg['gclass']}|nt={nt}|rest={cfg['shape'][1:]}"
     dt = S.dt_of(cfg["items"])
 
+    after_refusal = which % 4 == 1  # every object first goes through a compute() that is refused (and is then repaired by the user)
+
     def run(values, cfg_=None, lm=None):
         c = cfg_ or cfg
         s = make_stock(fd, c, cls_name, solver=solver, lm=lm if lm is not None else build_lm(fd, c), **{drive_attr: values})
         with quiet():
+            if after_refusal:
+                good = s.lifetime_model.n_pts_per_interval
+                s.lifetime_model.n_pts_per_interval = 12
+                try:
+                    s.compute()
+                except Exception:
+                    pass
+                s.lifetime_model.n_pts_per_interval = good
             s.compute()
         return S.results_of(s), s
 
